@@ -48,15 +48,18 @@ def atmo(a):
     raise ValueError(kind)
 
 
-def wind(w):
+def wind(w, max_factor=None):
     speed, direction, until = w
     if until is None:
         return Wind(Velocity.FPS(speed), Angular.Degree(direction))
+    if max_factor:
+        # the rarely passed keyword: a maximum beyond the explicit until-distance, which must change nothing
+        return Wind(Velocity.FPS(speed), Angular.Degree(direction), Distance.Foot(until), max_distance_feet=until * max_factor)
     return Wind(Velocity.FPS(speed), Angular.Degree(direction), Distance.Foot(until))
 
 
-def winds(ws):
-    return [wind(w) for w in ws]
+def winds(ws, max_factor=None):
+    return [wind(w, max_factor) for w in ws]
 
 
 def ammo(s):
@@ -82,7 +85,7 @@ def shot(s):
                 relative_angle=Angular.Degree(s.get("rel_deg", 0.0)),
                 cant_angle=Angular.Degree(s.get("cant_deg", 0.0)),
                 atmo=atmo(s.get("atmo", {"kind": "icao", "alt_ft": 0.0})),
-                winds=winds(ws) if ws else None)
+                winds=winds(ws, s.get("wind_max_factor")) if ws else None)
 
 
 # ----------------------------------------------------------------------------- long-lived-session mode
